@@ -14,6 +14,7 @@ pub fn default_opts() -> GenOpts {
     GenOpts {
         star_max: 3,
         allow_cap: true,
+        over_cap: false,
     }
 }
 
